@@ -1,1 +1,2 @@
+pub mod prog;
 pub mod soup;
